@@ -481,12 +481,26 @@ def main():
     tab_text, tab_js = gen_tables(mods)
     files = [("Unicode.lean", uni_text), ("Regexes.lean", re_text), ("Tables.lean", tab_text)]
     extra_js = {}
-    try:
-        import translate_struct
-        for name, text, js in translate_struct.generate(mods, REPO):
+    import glob, importlib
+    sys.path.insert(0, HERE)
+    for plug in sorted(glob.glob(os.path.join(HERE, "gen_*.py"))):
+        modname = os.path.basename(plug)[:-3]
+        for name, text, js in importlib.import_module(modname).generate(mods, REPO):
             files.append((name, text)); extra_js[name[:-5].lower()] = js
-    except ImportError:
-        pass
+    # op table of the driver and root import file of the library (by directory listing, so that adding a file is enough)
+    lean_dir = os.path.join(os.path.dirname(HERE), "lean")
+    opsmods = sorted(os.path.basename(f)[:-5] for f in glob.glob(os.path.join(lean_dir, "ProductMD", "Driver", "Ops*.lean")))
+    files.append(("AllOps.lean", "".join("import ProductMD.Driver.%s\n" % m_ for m_ in opsmods) + "import ProductMD.Driver.Proto\n"
+                  "/-! GENERATED: concatenation of the op tables of every Driver/Ops*.lean -/\nnamespace PM.Gen\nopen Lean\n"
+                  "def allOps : List (String × (Json → Json)) :=\n  " + " ++ ".join("PM.Driver.%s.ops" % m_ for m_ in opsmods) + "\nend PM.Gen\n"))
+    roots = []
+    for sub in ("Model", "Spec", "Proofs", "Properties", "Driver"):
+        for f in sorted(glob.glob(os.path.join(lean_dir, "ProductMD", sub, "*.lean"))):
+            roots.append("import ProductMD.%s.%s" % (sub, os.path.basename(f)[:-5]))
+    gen_names = [n for n, _ in files]
+    root_text = "-- GENERATED by tools/translate.py: imports every module of the library\n" + "\n".join(
+        ["import ProductMD.Generated.%s" % n[:-5] for n in gen_names] + roots) + "\n"
+    write_if_changed(os.path.join(lean_dir, "ProductMD.lean"), root_text)
     # dynamic ⊆ static
     dyn = dynamic_patterns()
     static = set(e["pattern"] for e in re_js if e["pattern"] is not None)
